@@ -4,6 +4,7 @@ import itertools
 from .. import obs
 
 LEVEL = "exploration"
+SUITE_MONITOR = True      # also judge the repository's own tests/doctests through rv/monitors.py
 RULE = ("A formatting specification = (fg in 8+none, bg in 8+none, each of 6 styles in "
         "True/False/unnamed): all 59049 in thorough, a seeded sample in quick. Each is applied to "
         "base values (plain str, unformatted FmtStr, uniformly formatted FmtStr with overlapping "
